@@ -101,7 +101,7 @@ package boltz
 //@   props C08 C07 C03
 //@   errflow
 //@   nosafety
-//@   modifies *, ocCnt, ocFn, ocRecv, cxN, cxWho, cxPhase, cxCtx, cxPersist
+//@   modifies *, ocCnt, ocFn, ocRecv, cxN, cxWho, cxPhase, cxCtx, cxPersist, edDone
 //@   lensures[persist-then-after-update] indexingContext != nil && !holderFailed[indexingContext.ErrHolder] ==> cxPersist >= old(cxN) && cxN >= cxPersist + len(store.Indexer.constraints) && cxSegment(cxN, store.Indexer.constraints, len(store.Indexer.constraints), 2, ref(indexingContext))
 //@   lensures[the-row's-context] indexingContext != nil ==> indexingContext.IsCreate && str(indexingContext.RowId) == entId(ref(entity)) && indexingContext.Ctx == ctx && indexingContext.Indexer == store.Indexer
 //@   lensures[holder] bucket != nil && bucket.Err != nil ==> result != nil
@@ -112,7 +112,7 @@ package boltz
 //@ func (ChildStoreStrategy).HandleUpdate
 //@   props C07
 //@   impl all
-//@   modifies *, ocCnt, ocFn, ocRecv, cxN, cxWho, cxPhase, cxCtx, cxPersist
+//@   modifies *, ocCnt, ocFn, ocRecv, cxN, cxWho, cxPhase, cxCtx, cxPersist, edDone
 //@   ensures[unhandled-has-no-error] !result0 ==> result1 == nil
 //@   ensures[unhandled-registers-nothing] !result0 ==> ocSame()
 //@   ensures[unhandled-notifies-no-constraint] !result0 ==> cxSame()
@@ -120,7 +120,7 @@ package boltz
 //@   props C08 C07 C03
 //@   errflow
 //@   nosafety
-//@   modifies *, ocCnt, ocFn, ocRecv, cxN, cxWho, cxPhase, cxCtx, cxPersist
+//@   modifies *, ocCnt, ocFn, ocRecv, cxN, cxWho, cxPhase, cxCtx, cxPersist, edDone
 //@   lensures[before-update-precedes-the-persist] indexingContext != nil && !holderFailed[indexingContext.ErrHolder] ==> cxPersist >= old(cxN) + len(store.Indexer.constraints) && cxSegment(cxPersist, store.Indexer.constraints, len(store.Indexer.constraints), 1, ref(indexingContext))
 //@   lensures[after-update-follows-the-persist] indexingContext != nil && !holderFailed[indexingContext.ErrHolder] ==> cxN >= cxPersist + len(store.Indexer.constraints) && cxSegment(cxN, store.Indexer.constraints, len(store.Indexer.constraints), 2, ref(indexingContext))
 //@   lensures[the-row's-context] indexingContext != nil ==> !indexingContext.IsCreate && str(indexingContext.RowId) == entId(ref(entity)) && indexingContext.Ctx == ctx && indexingContext.Indexer == store.Indexer
@@ -134,27 +134,28 @@ package boltz
 // Delete: one change flow per child store that holds the entity plus one for the store itself, each fired exactly once,
 // in order, as the last registrations; the store's own flow is marked as parent event iff a child flow exists
 //@ func (storeInternal).processDeleteConstraints
-//@   modifies *, ocCnt, ocFn, ocRecv, cxN, cxWho, cxPhase, cxCtx, cxPersist
+//@   modifies *, ocCnt, ocFn, ocRecv, cxN, cxWho, cxPhase, cxCtx, cxPersist, edDone
 //@   ensures[a-delete-flow] result0 != nil ==> fresh(result0) && istype(result0, *EntityChangeState) && as(result0, *EntityChangeState).Ctx == ctx && as(result0, *EntityChangeState).ChangeType == EntityDeleted && as(result0, *EntityChangeState).EntityId == id
 //@ func (*BaseStore).processDeleteConstraints
-//@   props C07 C08 C03
+//@   props C07 C08 C03 C05 C06
 //@   errflow
 //@   nosafety
-//@   modifies *, ocCnt, ocFn, ocRecv, cxN, cxWho, cxPhase, cxCtx, cxPersist
+//@   modifies *, ocCnt, ocFn, ocRecv, cxN, cxWho, cxPhase, cxCtx, cxPersist, edDone
+//@   lensures[then-every-link-collection-is-told] errHolder != nil && !holderFailed[errHolder] ==> forallStr(k, has(store.links, k) ==> edDone[store.links[k]]) && forallStr(k, has(store.refCountedLinks, k) ==> edDone[store.refCountedLinks[k]])
 //@   lensures[before-delete-for-every-constraint] indexingContext != nil && !holderFailed[indexingContext.ErrHolder] ==> cxN >= old(cxN) + len(store.Indexer.constraints) && cxSegment(cxN, store.Indexer.constraints, len(store.Indexer.constraints), 3, ref(indexingContext)) && str(indexingContext.RowId) == id && indexingContext.Ctx == ctx
 //@   lensures[holder] errHolder.Err != nil ==> result1 != nil
 //@   lensures[a-delete-flow] result0 != nil ==> result0 == changeFlow && changeFlow.ChangeType == EntityDeleted && changeFlow.Ctx == ctx && changeFlow.EntityId == id
 //@ func (Store).DeleteById
-//@   modifies *, ocCnt, ocFn, ocRecv, cxN, cxWho, cxPhase, cxCtx, cxPersist
+//@   modifies *, ocCnt, ocFn, ocRecv, cxN, cxWho, cxPhase, cxCtx, cxPersist, edDone
 //@ func (ChildStoreStrategy).HandleDelete
-//@   modifies *, ocCnt, ocFn, ocRecv, cxN, cxWho, cxPhase, cxCtx, cxPersist
+//@   modifies *, ocCnt, ocFn, ocRecv, cxN, cxWho, cxPhase, cxCtx, cxPersist, edDone
 //@ func (ChildStoreStrategy).GetStore
 //@   pure
 //@ func (*BaseStore).DeleteById
 //@   props C08 C07
 //@   errflow
 //@   nosafety
-//@   modifies *, ocCnt, ocFn, ocRecv, ecsParent, cxN, cxWho, cxPhase, cxCtx, cxPersist
+//@   modifies *, ocCnt, ocFn, ocRecv, ecsParent, cxN, cxWho, cxPhase, cxCtx, cxPersist, edDone
 //@   lensures[every-flow-fired-once-in-order] result == nil && store.parent == nil && bucket != nil && changeFlows[0] != nil ==> forall(j, 0 <= j && j < len(changeFlows) ==> sel(ocRecv[ctxTx[ctx]], ocCnt[ctxTx[ctx]] - len(changeFlows) + j) == ref(changeFlows[j]))
 //@   invariant 1: len(changeFlows) >= 1 && (hasChildren == (len(changeFlows) > 1)) && forall(j, 1 <= j && j < len(changeFlows) ==> changeFlows[j] != nil && ecsCtx[changeFlows[j]] == ref(ctx))
 //@   invariant 2: len(changeFlows) >= 1 && (changeFlows[0] != nil ==> len(changeFlows) >= 1 && forall(j, 0 <= j && j < len(changeFlows) ==> changeFlows[j] != nil && ecsCtx[changeFlows[j]] == ref(ctx)) && forall(j, 0 <= j && j <= rangeindex ==> sel(ocRecv[ctxTx[ctx]], ocCnt[ctxTx[ctx]] - (rangeindex + 1) + j) == ref(changeFlows[j])))
@@ -162,7 +163,7 @@ package boltz
 //@   props C07
 //@   errflow
 //@   nosafety
-//@   modifies *, ocCnt, ocFn, ocRecv, cxN, cxWho, cxPhase, cxCtx, cxPersist
+//@   modifies *, ocCnt, ocFn, ocRecv, cxN, cxWho, cxPhase, cxCtx, cxPersist, edDone
 
 // ---- delivery: what runs after the commit ----
 // ppN/ppWho/ppState: the log of ProcessPostCommit calls (which constraint, with which state)
